@@ -22,6 +22,10 @@ type FuncVC struct {
 	ContractErr string // non-empty: contract does not resolve against the code (drift)
 	HasContract bool
 	NumLoops    int
+	vc          *VC
+	entry       *State
+	params      []Val
+	sent        int
 }
 
 type VerifyOpts struct {
@@ -36,6 +40,7 @@ func (e *Engine) GenVC(fn *ssa.Function, opts VerifyOpts) (res *FuncVC) {
 	vc.closures = map[string]*closureInfo{}
 	vc.callCount = map[string]int{}
 	vc.noFrame = opts.NoFrame
+	res.vc = vc
 	defer func() {
 		if r := recover(); r != nil {
 			switch x := r.(type) {
@@ -102,6 +107,10 @@ func (e *Engine) GenVC(fn *ssa.Function, opts VerifyOpts) (res *FuncVC) {
 		}
 	}
 	fr.entry = st.clone()
+	res.entry = fr.entry
+	for _, p := range fn.Params {
+		res.params = append(res.params, fr.vals[p])
+	}
 	env := fr.baseEnv(st)
 	env.old = nil
 	if fr.contract != nil {
